@@ -161,26 +161,33 @@ func refDefine(m *ref.Machine, c Case) error {
 
 // ---- permutations ----
 
+// perms lists the permutations of 0..n-1 in lexicographic order: the first
+// is the identity (callers before callees, since calls go to higher
+// indices), the last the reverse (callees first).
 func perms(n int) [][]int {
-	var out [][]int
 	p := make([]int, n)
 	for i := range p {
 		p[i] = i
 	}
-	var rec func(k int)
-	rec = func(k int) {
-		if k == n {
-			out = append(out, append([]int{}, p...))
-			return
+	var out [][]int
+	for {
+		out = append(out, append([]int{}, p...))
+		i := n - 2
+		for 0 <= i && p[i+1] < p[i] {
+			i--
 		}
-		for i := k; i < n; i++ {
-			p[k], p[i] = p[i], p[k]
-			rec(k + 1)
-			p[k], p[i] = p[i], p[k]
+		if i < 0 {
+			return out
+		}
+		j := n - 1
+		for p[j] < p[i] {
+			j--
+		}
+		p[i], p[j] = p[j], p[i]
+		for a, b := i+1, n-1; a < b; a, b = a+1, b-1 {
+			p[a], p[b] = p[b], p[a]
 		}
 	}
-	rec(0)
-	return out
 }
 
 // fwdInfo describes the forward references of the program when its functions
@@ -222,17 +229,17 @@ var modes = []string{"repl", "crepl", "eval", "compile", "cstring", "evalfn", "p
 
 func nCases(tier string) int {
 	if tier == "thorough" {
-		return 40000
+		return 24000
 	}
-	return 1600
+	return 2000
 }
 
 func genC(r *rand.Rand, i int, tier string) Case {
 	if i < len(probes) {
 		return probes[i]
 	}
-	noargs := i%3 == 0
-	multi := i%4 == 1
+	noargs := i%2 == 0
+	multi := (i/2)%4 == 1
 	return genCase(r, noargs, multi)
 }
 
@@ -334,7 +341,7 @@ func exec(x *fw.Ctx, c Case) {
 		return
 	}
 	var wantA []want
-	slipBudget := 2000
+	slipBudget := 1000
 	nref := c.K
 	if c.Long {
 		nref = 100
@@ -350,8 +357,9 @@ func exec(x *fw.Ctx, c Case) {
 			x.Fail("harness: reference cannot evaluate", "%s: %s", c.Main, err)
 			return
 		}
-		if slipBudget < 40*m.Steps+2000 {
-			slipBudget = 40*m.Steps + 2000
+		// slip counts function evaluations only, the reference every node
+		if slipBudget < 3*m.Steps+1000 {
+			slipBudget = 3*m.Steps + 1000
 		}
 		wantA = append(wantA, w)
 	}
@@ -378,16 +386,24 @@ func exec(x *fw.Ctx, c Case) {
 		}
 	}
 	x.Cover("program:lamfree=" + yn(lamfree))
+	if !lamfree {
+		x.Cover("avoided:lambda-in-operator-position-with-bare-outer-variable-body")
+	}
+	if c.Kind == "noargs" {
+		x.Cover("avoided:forward-call-with-arguments (parameterless program)")
+	}
+	x.Cover("avoided:funcall-without-arguments (C04 matter)")
 	var fails []failure
 	okCount, total := 0, 0
+	fwdCache := map[string]bool{}
 	record := func(perm []int, mode, at string, rebind int, o obs, w want, src string) {
 		total++
-		kind, detail := judge(o, w)
-		if kind == "" {
-			okCount++
-			return
+		pk := fmt.Sprint(perm)
+		fa, has := fwdCache[pk]
+		if !has {
+			fa, _, _ = fwdInfo(c, perm)
+			fwdCache[pk] = fa
 		}
-		fa, _, _ := fwdInfo(c, perm)
 		if mode == "premain" && mainArgs {
 			fa = true // the main form itself was compiled before its callees existed
 		}
@@ -398,13 +414,33 @@ func exec(x *fw.Ctx, c Case) {
 		case 1 < rebind:
 			rd = "2+"
 		}
+		cell := fmt.Sprintf("lamfree=%s fwdargs=%s rebind=%s", yn(lamfree), yn(fa), rd)
+		x.Cover("evals: " + cell)
+		kind, detail := judge(o, w)
+		if kind == "" {
+			okCount++
+			x.Cover("agree: " + cell)
+			return
+		}
 		fails = append(fails, failure{
-			sig: fmt.Sprintf("fwdargs=%s rebind=%s lamfree=%s mode=%s at=%s fail=%s", yn(fa), rd, yn(lamfree), mode, at, kind),
+			sig: fmt.Sprintf("%s mode=%s at=%s fail=%s", cell, mode, at, kind),
 			msg: fmt.Sprintf("order %v mode %s %s: %s; program: %s", perm, mode, at, detail, src),
 		})
 	}
 
 	ps := perms(n)
+	if x.Tier != "thorough" && 10 < len(ps) {
+		// quick tier: 10 of the 24 orders of 4 definitions (first = callers
+		// first, last = callees first, and every third in between)
+		var sub [][]int
+		for k, p := range ps {
+			if k == 0 || k == len(ps)-1 || k%3 == 1 {
+				sub = append(sub, p)
+			}
+		}
+		ps = sub
+	}
+	x.CoverN("orders", len(ps))
 	for pi, perm := range ps {
 		fa, fany, _ := fwdInfo(c, perm)
 		x.Cover("order:fwdargs=" + yn(fa) + ",fwdany=" + yn(fany))
@@ -647,6 +683,7 @@ func exec(x *fw.Ctx, c Case) {
 						x.Fail("harness: reference cannot evaluate", "history step %d: %s", si, err)
 						return
 					}
+					w.budget = 3*hm.Steps + 1000
 					at := "fresh"
 					if st.Obj < 0 {
 						log = append(log, fmt.Sprintf("[run fresh object #%d compiled=%v]", len(objs), st.Compiled))
@@ -702,12 +739,15 @@ func exec(x *fw.Ctx, c Case) {
 func init() {
 	fw.Register(fw.Spec[Case]{
 		ID: "C08",
-		Rule: "seeded programs of 2-4 defuns (DAG calls, self recursion, mutual recursion on a decreasing counter; arguments, let/let*, if/cond/when/unless, " +
-			"and/or, setq, dotimes, funcall/apply, list building, trace markers, 0-3 global variables) plus a main form; each program is run under every " +
-			"permutation of its defuns x 7 delivery modes (form by form, form by form compiled, whole Code evaluated, Code.Compile, CompileString, (eval 'form), load of a file) " +
-			"x k=2..5 evaluations of the same code object, and under 6 histories with redefinitions (fresh / re-used, compiled / list-form main objects). " +
-			"One case in three has only parameterless functions (forward references without arguments; recursion on a global counter) so that the placeholder path stays " +
-			"monitored while forward calls with arguments are a listed finding; one case in four redefines one function more than once. " +
+		Rule: "3 fixed probe programs (one per listed finding), then seeded programs of 2-4 defuns (DAG calls, self recursion, mutual recursion on a decreasing " +
+			"counter; arguments, let/let*, if/cond/when/unless, and/or, setq, dotimes, funcall/apply, lambda forms, list building, trace markers, 0-3 global variables) " +
+			"plus a main form; each program is run under the orders of its defuns (all; quick tier: 10 of the 24 orders of 4 defuns) x 8 delivery modes (form by form, " +
+			"form by form compiled, whole Code evaluated, Code.Compile, CompileString, (eval 'form), main form compiled before its callees exist, load of a file) x " +
+			"k=2..5 (one case in 12: 100) evaluations of the same code object, and under 4 redefinition histories (fresh / re-used, compiled / list-form main objects, " +
+			"1-3 redefinitions with renamed parameters); every name is fresh per treatment. Avoid sets: every second case has only parameterless functions (forward " +
+			"references without arguments, recursion on a global counter) so that placeholders stay monitored while forward calls with arguments are a listed finding; " +
+			"three histories in four redefine each function at most once (recursive ones rarely); a lambda in operator position with a bare outer variable as body is " +
+			"kept to a few percent of programs; (funcall f) without arguments is never generated (C04). " +
 			"distinct = distinct program+history; non-trivial = the main form produces at least 2 trace markers",
 		N:     nCases,
 		Gen:   genC,
